@@ -57,12 +57,13 @@ VALUE_TYPES = {
     # truthy
     "val": lambda t: Val(t), "list": lambda t: [t], "dict": lambda t: {t: 1}, "tuple": lambda t: tuple([t, t]),
     "len1": lambda t: Len1(), "str": lambda t: "v%d-%s" % (t, "x" * (t % 3 + 1)),
+    "excval": lambda t: ValueError("a value that happens to be an exception instance %d" % t),   # returned, not raised
     # falsy (the first five are fresh objects; the singletons must be used at most once per scenario)
     "fobj": lambda t: FalsyObj(), "flist": lambda t: [], "fdict": lambda t: {}, "fset": lambda t: set(),
     "len0": lambda t: Len0(), "zero": lambda t: 0, "none": lambda t: None, "false": lambda t: False,
     "fstr": lambda t: "", "ftuple": lambda t: (),
 }
-TRUTHY = ("val", "list", "dict", "tuple", "len1", "str")
+TRUTHY = ("val", "list", "dict", "tuple", "len1", "str", "excval")
 FALSY_FRESH = ("fobj", "flist", "fdict", "fset", "len0")
 FALSY_SINGLE = ("zero", "none", "false", "fstr", "ftuple")
 
